@@ -202,6 +202,12 @@ def task_fn(task: tuple) -> dict:
     return part.out()
 
 
+def replay_case(raw: dict, part: Part) -> None:
+    backends.setup_determinism()
+    backends.sqlite_template()
+    one(raw["config"], raw["getter"], tuple(raw["setters"]), part, fresh=raw.get("world", "").startswith("RUNNING trial just asked"))
+
+
 def run(tier: str, replay: str | None = None) -> int:
     backends.setup_determinism()
     ctx = Ctx(PID, tier, "model_checking")
